@@ -60,6 +60,7 @@ def check(ctx):
     # (symbol tables, parsed species) survives from one network to the next (shared with C17.R3)
     from .c17 import discovered_state
     ctx.absorb(lambda sub: discovered_state(sub, package(sub.tree), "R10"), "R10", only=lambda o: o.outcome != "MISSING")
+    _r11(ctx, pkg)
 
 
 # ------------------------------------------------------------------ the alias rule (R6 anchor)
@@ -710,6 +711,44 @@ def _r8(ctx):
 
 # ------------------------------------------------------------------ R9
 
+def _r11(ctx, pkg):
+    """Enzo patch: which network species coincide with a predefined Enzo / Grackle field is decided by Species equality -- the
+    relation that gives `e-`, `E-`, `E` one slot and that the alias loop just above uses -- not by the spelling."""
+    fn = pkg.cls("EnzoPatch").methods.get("render")
+    if fn is None:
+        ctx.missing("R11", "EnzoPatch.render", (PATCH, 0), "method vanished")
+        return
+    ctx.saw(PATCH, "EnzoPatch.render")
+    fl = Flow(fn, PATCH)
+    call = None
+    for lst in fl.assigns.values():
+        for v, *_ in lst:
+            v = simp(v)
+            if v[0] == "meth" and v[2] == "SpeciesGroups":
+                call = v
+    if call is None or len(call[3]) != 7:
+        ctx.unrec("R11", "EnzoPatch.render:SpeciesGroups", (PATCH, fn.lineno), "the SpeciesGroups(..) construction with its seven groups was not found")
+        return
+    want = [("In", "enzo_defined_species_name"), ("In", "grackle_species_name"), ("NotIn", "enzo_defined_species_name"), ("NotIn", "grackle_species_name")]
+    names = ["intersect_enzo", "intersect_grackle", "diff_enzo", "diff_grackle"]
+    for a, (op, table), nm in zip(call[3][3:], want, names):
+        m = as_map(simp(a))
+        ok = False
+        found = show(simp(a))[:140]
+        if m:
+            bv, body, base, ifs = m
+            if len(ifs) == 1 and ifs[0][0] == "cmp" and ifs[0][1] == (op,):
+                lhs, rhs = ifs[0][2]
+                mr = as_map(rhs)
+                ok = lhs == body and base == ("attr", ("param", "network"), "species") and bool(mr) and mr[1] == ("call", ("global", "Species"), (mr[0],), ()) \
+                    and mr[2] == ("attr", ("global", "EnzoPatch"), table) and not mr[3]
+        ctx.check(ok, "R11", f"EnzoPatch.render:species_{nm}", (PATCH, fn.lineno),
+                  f"network species {'in' if op == 'In' else 'not in'} the predefined list, by Species equality" if ok else
+                  "the group is not `species (not) in [Species(n) for n in <predefined names>]`: compared by spelling, an electron written E- / E (or any species equal but spelled "
+                  "differently) is not recognised as predefined and gets a second field slot",
+                  expected=f"[s for s in species_network if s {'in' if op == 'In' else 'not in'} [Species(n) for n in EnzoPatch.{table}]]", found=found)
+
+
 def _r9(ctx, pkg):
     fn = pkg.method("Network", "species")
     ctx.saw(NETF, "Network.species")
@@ -761,6 +800,7 @@ def _r9(ctx, pkg):
 
 
 MUTANTS = [
+    {"name": "enzo-groups-by-name", "file": PATCH, "old": "species_intersect_enzo = [s for s in species_network if s in species_enzo]", "new": "species_intersect_enzo = [s for s in species_network if s.name in set(EnzoPatch.enzo_defined_species_name)]", "rules": ["R11"]},
     {"name": "alias-symbol-table-memo", "edits": [
         {"file": SP, "old": "    _replacement = {}\n", "new": "    _replacement = {}\n    _symtab = None\n"},
         {"file": SP, "old": "        if not self._alias:\n            basename = self.basename\n", "new": "        if not self._alias:\n            if Species._symtab is None:\n                Species._symtab = {}\n            basename = self.basename\n"}], "rules": ["R10"]},
